@@ -79,6 +79,12 @@ def grid_cases(rng, tier):
               'opt-se2geo', 'opt-3duct-convapprox', 'opt-five-regions',
               'opt-only-upper-region', 'opt-bare-kc', 'opt-eng-se2-mit'):
         out.append((k, _sl[k]))
+    # the axial regions listed top-down in the input (their order in the
+    # file says nothing about their elevation)
+    c5 = copy.deepcopy(_sl['opt-five-regions'])
+    ar = c5['types']['a1']['AxialRegion']
+    c5['types']['a1']['AxialRegion'] = {k: ar[k] for k in reversed(list(ar))}
+    out.append(('five-regions-listed-top-down', c5))
     if tier == 'thorough':
         for i in range(8):
             n = rng.choice([2, 3])
